@@ -50,6 +50,9 @@ type redisProc struct {
 	cmdHdlrs map[string]*commandHandler
 	wg       sync.WaitGroup
 
+	quitOnce sync.Once
+	quit     chan struct{} // closed by Stop: sessions give up whatever they wait for
+
 	cfg *config
 }
 
@@ -61,6 +64,7 @@ func newRedisProc(svcName string, svcCfg *service.Config, svcHosts []*host.Host,
 		stats:    stats,
 		logger:   logger,
 		cmdHdlrs: make(map[string]*commandHandler),
+		quit:     make(chan struct{}),
 	}
 
 	l, err := proc.NewListener(p.cfg.Listener, p.stats.Downstream, logger, p.handleConn)
@@ -162,6 +166,9 @@ func (p *redisProc) StopListen() error {
 }
 
 func (p *redisProc) Stop() error {
+	// a session whose reader is blocked handing a request to its writer does not
+	// notice that the listener closed its connection: tell the sessions first.
+	p.quitOnce.Do(func() { close(p.quit) })
 	p.l.Stop()
 	p.u.Stop()
 	p.wg.Wait()
